@@ -219,6 +219,7 @@ type Script struct {
 	structs    map[string]*structSort
 	typeIDs    map[string]int
 	typeNames  []string
+	typeObjs   map[int]types.Type
 }
 
 type structSort struct {
@@ -228,7 +229,7 @@ type structSort struct {
 }
 
 func newScript() *Script {
-	return &Script{sortDecl: map[string]bool{}, declared: map[string]string{}, structs: map[string]*structSort{}, typeIDs: map[string]int{}}
+	return &Script{sortDecl: map[string]bool{}, declared: map[string]string{}, structs: map[string]*structSort{}, typeIDs: map[string]int{}, typeObjs: map[int]types.Type{}}
 }
 
 const prelude = `(declare-datatypes ((Slice 0)) (((mkSlice (sarr Int) (soff Int) (slen Int)))))
@@ -316,6 +317,7 @@ func (s *Script) typeID(t types.Type) Term {
 		id = len(s.typeIDs) + 1
 		s.typeIDs[k] = id
 		s.typeNames = append(s.typeNames, k)
+		s.typeObjs[id] = t
 	}
 	return intLit(int64(id))
 }
